@@ -5,11 +5,11 @@ package main
 // without anything that derives from a read made before the write.
 
 import (
-	"os"
 	"fmt"
 	"go/ast"
 	"go/token"
 	"go/types"
+	"os"
 	"sort"
 	"strings"
 
@@ -335,7 +335,7 @@ func (c *Ctx) casRule(kinds []string) {
 						nodes = nodes[from:]
 					}
 					if st == lostSt {
-					for _, nd := range nodes {
+						for _, nd := range nodes {
 							path = append(path, nd)
 							rs, ok := nd.(*ast.ReturnStmt)
 							if !ok {
